@@ -34,7 +34,9 @@ ASSUMPTIONS = [
 FLOORS = {'quick': {'outcomes': 4, 'evaluations': 60000, 'counter:logged': 40000}, 'thorough': {'outcomes': 4, 'evaluations': 500000}}
 
 TOK = ['a', 'a(', 'f(', '@x', '{', '}', '(', ')', '[', ']', ';', ':', ',', '!', '"s"', "'", '1px', '1', '#f00', '/*c*/', ' ', '*', '.', '>', '+',
-       '=', '$=', '%', '/', 'url(x)', '-', '\\{', 'important', '|']
+       '=', '$=', '%', '/', 'url(x)', '-', '\\{', 'important', '|',
+       # brackets and quotes that are part of a name (escaped): they open nothing
+       'x\\(y', 'x\\28 ', 'x\\[y', 'x\\"y']
 CORE4 = ['a', 'f(', '{', '}', '(', ')', '[', ']', ';', ':', '!', '"s"', '1px', ' ', '*', '=', ',', '@x']
 
 D, S = '\x01', '\x02'  # injection markers: declaration boundary, statement boundary
